@@ -462,7 +462,7 @@ func init() {
 	register(&Prop{
 		ID: "C13", Engine: "client",
 		Generate: genC13, Decode: decodeC13, Execute: execC13,
-		Config: func(any) simrt.Config { return simrt.Config{MaxSteps: 100000, IdleProbe: 4 * time.Second} },
+		Config: func(any) simrt.Config { return simrt.Config{MaxSteps: 60000, IdleProbe: 4 * time.Second} },
 		Runs:   clientRuns(80000, 5000000),
 		Floors: []Floor{{Name: "grid", Count: func(t string) int { return len(c13Grid(t)) }, Scenario: func(t string, i int) any { return c13Grid(t)[i] }}},
 		Rule:   "one evaluation = one simulated dial (real kmipclient negotiation against a scripted server with one of eight behaviours (conformant, discovery unsupported, lists unoffered versions, ascending, duplicates, empty, zigzag, seeded permutation), or against the real kmipserver) followed by one request on the original and one on a cloned client; the grid floor sweeps all 31 client sets x 32 server sets x 8 behaviours (+3 permutations) + real server + enforced versions completely; distinct = distinct event-log hashes among runs with at least one chunked read, stall or preemption",
